@@ -14,7 +14,10 @@ var specialInt64 = []int64{0, 1, -1, 7, 42, -100, 255, 65536, 1 << 31, -(1 << 31
 	math.MaxInt64, math.MinInt64, math.MaxInt64 - 1, 922337203685477580, 1000000000000000000}
 
 var specialFloat64 = []float64{0, 1.5, -2.25, 0.1, 1e21, 1e20, 1e-7, 1e-6, 123456789.123, math.MaxFloat64, math.SmallestNonzeroFloat64,
-	-math.MaxFloat64, 1.0, 100.0, 3.0e10, 0.30000000000000004, 5e-324, 2.2250738585072014e-308, math.Copysign(0, -1), 9007199254740993.0}
+	-math.MaxFloat64, 1.0, 100.0, 3.0e10, 0.30000000000000004, 5e-324, 2.2250738585072014e-308, math.Copysign(0, -1), 9007199254740993.0,
+	// whole numbers at the edges of the integer types and of the formats a float may be written in
+	9223372036854775808.0, -9223372036854775808.0, 9223372036854774784.0, 9223372036854777856.0, 18446744073709551616.0, 18446744073709549568.0,
+	4294967296.0, 2147483648.0, -2147483649.0, 9007199254740992.0, 1e15, 1e16, 1e17, 999999999999999.0, 1e6, 123456.0, -1e6, 1e-5, 1e-4, 1e100, 1e-100, -1e21, 1e22, 1e23, 5e-7, 65536.0, 0.5, -0.5}
 
 var specialStrings = []string{"", "a", "abc", "x y", "\"", "\\", "a\"b\\c", "\n", "\t\r\b\f", "\x00", "\x1f", "\x7f", "<>&", "</script>",
 	" ", " ", "a b", "é", "日本語", "😀", "\xff", "a\xc3", "\xe2\x82", "\xed\xa0\x80", "null", "true", "123", "-", "//", "'", "key:", "[", "{}", ","}
@@ -71,7 +74,14 @@ func repeatTo(s string, n int) string {
 
 // Scalar draws nil / bool / int64 / finite float64 / string.
 func Scalar(t *rapid.T) any {
-	switch sim.Intn(t, 7, "skind") {
+	switch sim.Intn(t, 8, "skind") {
+	case 7:
+		// a whole float of any magnitude (the fast paths and formats encoders pick for integers held in floats)
+		f := float64(rapid.Int64().Draw(t, "whole") >> uint(sim.Intn(t, 64, "shift")))
+		if sim.Intn(t, 4, "scale") == 3 {
+			f *= math.Pow(2, float64(sim.Intn(t, 40, "pow")))
+		}
+		return f
 	case 0:
 		return nil
 	case 1:
